@@ -118,7 +118,7 @@ PROPS = {
     },
     "C04": {
         "level": "proof",
-        "units": ["za_customer", "za_states", "za_lib", "za_proofs_new", "za_pay_new", "lemmas_range_complete", "lemmas_range_ledger", "lemmas_schnorr"],
+        "units": ["za_customer", "za_states", "za_lib", "za_merchant", "za_proofs_new", "za_pay_new", "lemmas_range_complete", "lemmas_range_ledger", "lemmas_schnorr"],
         "kani": ["balance_try_new_exact", "amount_constructors_exact", "balance_apply_exact", "balance_try_add_exact"],
         "assumptions": [
             "blind-signing randomiser u != 0 and re-randomiser r != 0",
